@@ -15,6 +15,7 @@ import (
 
 // route: end to end, is a statement answered by the proxy itself or forwarded - as QUERY and as PREPARE + EXECUTE.
 // op:   T:<truth 1 local|0 forwarded> K:<hex current keyspace|-> <hex statement>
+//       P:<keyspace hex>: before that, on the same connection, USE <keyspace> and the same statement (QUERY and PREPARE)
 // real: query=<local|fwd|none> prepare=<local|fwd|none> execute=<local|fwd|none|skip>
 
 func init() { streams["route"] = stream{gen: genRoute, run: runRoute} }
@@ -25,7 +26,8 @@ func runRoute(op string) (out string) {
 			out = fmt.Sprintf("panic:%v", p)
 		}
 	}()
-	ks, q := "", ""
+	ks, q, prevKs := "", "", ""
+	hasPrev := false
 	version := primitive.ProtocolVersion4
 	for _, t := range strings.Fields(op) {
 		switch {
@@ -34,6 +36,12 @@ func runRoute(op string) (out string) {
 			fmt.Sscan(t[2:], &v)
 			version = primitive.ProtocolVersion(v)
 		case strings.HasPrefix(t, "T:"):
+		case strings.HasPrefix(t, "P:"): // earlier on the same connection: USE <this keyspace> and the very same statement
+			hasPrev = true
+			if t[2:] != "-" {
+				b, _ := hex.DecodeString(t[2:])
+				prevKs = string(b)
+			}
 		case strings.HasPrefix(t, "K:"):
 			if t[2:] != "-" {
 				b, _ := hex.DecodeString(t[2:])
@@ -60,6 +68,16 @@ func runRoute(op string) (out string) {
 		return "dial-error"
 	}
 	defer cl.Close()
+	if hasPrev {
+		if prevKs != "" {
+			_ = cl.Send(1, &message.Query{Query: "USE " + prevKs, Options: &message.QueryOptions{Consistency: primitive.ConsistencyLevelOne}})
+			_, _ = cl.Recv(3 * time.Second)
+		}
+		_ = cl.Send(2, &message.Query{Query: q, Options: &message.QueryOptions{Consistency: primitive.ConsistencyLevelOne}})
+		_, _ = cl.Recv(3 * time.Second)
+		_ = cl.Send(2, &message.Prepare{Query: q})
+		_, _ = cl.Recv(3 * time.Second)
+	}
 	if ks != "" {
 		_ = cl.Send(1, &message.Query{Query: "USE " + ks, Options: &message.QueryOptions{Consistency: primitive.ConsistencyLevelOne}})
 		if _, err := cl.Recv(3 * time.Second); err != nil {
@@ -128,6 +146,9 @@ func genRoute(e *emitter, r *rng.R, n int, tier string) {
 		}
 		q := varyCaseWs(rr, "SELECT "+rr.Pick([]string{"*", "key", "count(*)"})+" FROM "+qual+tbl)
 		ops = append(ops, fmt.Sprintf("V:%d T:%d K:%s %s", []int{3, 4, 4, 5, 65, 66}[rr.Intn(6)], b2i(ksSys && tblSys), k, hx(q)))
+		if ks != "" && rr.Intn(2) == 0 { // the same statement was seen earlier under another keyspace
+			ops = append(ops, fmt.Sprintf("V:4 T:%d P:%s K:%s %s", b2i(ksSys && tblSys), hx(map[bool]string{true: rr.Pick([]string{"app", "\"System\"", "other"}), false: rr.Pick([]string{"system", "SYSTEM", "\"system\""})}[strings.EqualFold(ks, "system") || ks == "\"system\""]), k, hx(q)))
+		}
 	}
 	e.emitAll(ops, 12)
 }
